@@ -75,7 +75,7 @@ class FnTranslator:
 
     def __init__(self, tr, fndef, *, lean_name, filename, first_line, vm_name=None,
                  params=None, arg_types=None, self_dispatch=None, super_resolver=None,
-                 cls=None, tok_mode=False):
+                 cls=None, tok_mode=False, concrete=None):
         self.tr = tr
         self.fn = fndef
         self.lean_name = lean_name
@@ -88,6 +88,7 @@ class FnTranslator:
         self.super_resolver = super_resolver
         self.cls = cls
         self.tok_mode = tok_mode
+        self.concrete = concrete
         self.kind = "M" if vm_name else "P"
         self.tmp = 0
         self.mutates = False
@@ -200,6 +201,13 @@ class FnTranslator:
             self.err(e, "unknown Settings attribute " + e.attr)
         if isinstance(e.value, ast.Name) and e.value.id == "self" and e.attr == "name" and self.cls:
             return (lean_str(self.cls), STR)
+        if isinstance(e.value, ast.Name) and e.value.id == "self" and self.concrete == "*generic*" and e.attr in ("BITV", "args"):
+            return ("self_" + e.attr, "List Char" if e.attr == "BITV" else "List Int")
+        if isinstance(e.value, ast.Name) and e.value.id == "self" and e.attr == "BITV" and self.concrete:
+            return ("(Cls.BITV .{})".format(self.concrete), "List Char")
+        if (isinstance(e.value, ast.Name) and e.value.id == "self" and e.attr == "args"
+                and self.arg_types is not None and all(t == INT for t in self.arg_types)):
+            return ("[" + ", ".join("a{}".format(i) for i in range(len(self.arg_types))) + "]", "List Int")
         self.err(e, "unsupported attribute " + ast.unparse(e))
 
     def binop(self, e, env, pre):
@@ -221,7 +229,9 @@ class FnTranslator:
             if isinstance(e.left, ast.List) and len(e.left.elts) == 1:
                 x, xt = self.expr(e.left.elts[0], env, pre)
                 return ("(Py.listRepeat {} {})".format(x, r), "List " + xt)
-            self.err(e, "unsupported list repetition")
+            return ("(Py.listMul {} {})".format(l, r), lt)
+        if isinstance(op, ast.Add) and lt.startswith("List") and rt == lt:
+            return ("({} ++ {})".format(l, r), lt)
         if lt != INT or rt != INT:
             self.err(e, "operator {} on types {} and {} in `{}`".format(
                 type(op).__name__, lt, rt, ast.unparse(e)))
@@ -352,6 +362,15 @@ class FnTranslator:
                 v = self.fresh()
                 pre.append(("bindE", v, "Py.bytes {}".format(t)))
                 return (v, "List Int")
+            if name == "substitute_bitvector" and len(e.args) == 2 and not e.keywords:
+                pt, pty = self.expr(e.args[0], env, pre)
+                at, aty = self.expr(e.args[1], env, pre)
+                if pty != "List Char" or aty != "List Int":
+                    self.err(e, "substitute_bitvector({}, {})".format(pty, aty))
+                self.need_effects(e)
+                t = self.fresh()
+                pre.append(("bindE", t, "Enc.substituteBitvector {} {}".format(pt, at)))
+                return (t, "List Int")
             if name == "print":
                 return self.prim_print(e, env, pre)
             if name in ("print_warning", "print_error"):
@@ -706,7 +725,7 @@ class FnTranslator:
         else:
             self.err(s, "iteration over " + ity)
         if self.kind != "M":
-            self.err(s, "for loop outside a VM method")
+            return self.pure_for(s, it, ety, env, lines, ind)
         var = "v_" + s.target.id
         env2 = dict(env)
         env2[s.target.id] = (var, ety)
@@ -730,6 +749,37 @@ class FnTranslator:
         lines.append("{}  )".format(ind))
         lines.append("{}let vm ← M.get".format(ind))
         self.mutates = True
+
+    def pure_for(self, s, it, ety, env, lines, ind):
+        """`for x in it:` whose body only appends to local lists: a left fold per list."""
+        var = "v_" + s.target.id
+        env2 = dict(env)
+        env2[s.target.id] = (var, ety)
+        appends = {}
+        order = []
+        for st in s.body:
+            ok = (isinstance(st, ast.Expr) and isinstance(st.value, ast.Call)
+                  and isinstance(st.value.func, ast.Attribute) and st.value.func.attr == "append"
+                  and isinstance(st.value.func.value, ast.Name) and len(st.value.args) == 1)
+            if not ok:
+                self.err(st, "unsupported statement in a pure for loop")
+            name = st.value.func.value.id
+            if name not in env or not env[name][1].startswith("List "):
+                self.err(st, "append to something that is not a local list")
+            pre = []
+            t, ty = self.expr(st.value.args[0], env2, pre)
+            if pre or ty != env[name][1][5:]:
+                self.err(st, "append of {} to {}".format(ty, env[name][1]))
+            if name not in appends:
+                appends[name] = []
+                order.append(name)
+            appends[name].append(t)
+        for name in order:
+            old, lty = env[name]
+            new = "v_{}_{}".format(name, self.fresh("l"))
+            lines.append("{}let {} : {} := ({}).foldl (fun acc {} => acc ++ [{}]) {}".format(
+                ind, new, lty, it, var, ", ".join(appends[name]), old))
+            env[name] = (new, lty)
 
     # -- whole function ------------------------------------------------------------
     def translate(self):
